@@ -9,7 +9,8 @@ RULE = ("bond graphs without self-loops and without 3-membered rings in which ev
         "triangle-free graphs, disconnected unions; vertices renumbered at random; bonds listed in random order and "
         "direction, with duplicate listings. Per graph: enumeration on two listings, typing of bonds/angles/dihedrals "
         "with random UFF types (plausible-by-degree, random friendly pool, random whole table), exclusion sets "
-        "(none / too small / atoms of 1-2 terms / random subset / everything), a renamed+permuted second run, retype. "
+        "(none / too small / atoms of 1-2 terms / random subset / everything), term lists as enumerated, shuffled and with "
+        "individual terms listed backwards, a renamed+permuted second run, retype. "
         "Thorough: additionally EVERY triangle-free graph on <= 6 labelled vertices with all degrees >= 1. "
         "Non-trivial = distinct input whose graph has a branch (degree >= 3) or a ring.")
 
@@ -708,6 +709,9 @@ def graph_case(ctx, bt, edges, kind, typing=True):
         terms = [list(t) for t in term_lists[k]]
         if rng.random() < 0.3:
             rng.shuffle(terms)
+        if rng.random() < 0.4:  # a term listed backwards is the same term
+            terms = [t[::-1] if rng.random() < 0.5 else t for t in terms]
+            ctx.count("terms-with-reversed-listings")
         ex, how = rand_exclude(rng, terms, n, ARITY[k])
         ctx.count("exclude:" + how)
         check_assign(ctx, bt, k, terms, uff, ex, nt, rng=rng)
@@ -744,7 +748,7 @@ def run(ctx, oracle_only=False):
     rng = ctx.rng
     bt = Batch(ctx)
     nmax = ctx.n(12, 18)
-    for _ in range(ctx.n(300, 4000)):
+    for _ in range(ctx.n(400, 4000)):
         edges, kind = rand_graph(rng, rng.choice([6, 9, nmax]))
         graph_case(ctx, bt, edges, kind)
     typekey_cases(ctx, bt, ctx.n(300, 3000))
@@ -776,7 +780,35 @@ def search(ctx):
         ctx.tier = saved
 
 
+def real_of(inp):
+    """the real code's result for a line-protocol op"""
+    op = inp["op"]
+    if op in ("angles", "dihedrals"):
+        return real_enum(op, inp["bonds"])
+    if op == "adjacency":
+        return real_adjacency(inp["bonds"])
+    if op == "assign":
+        return real_assign(inp["kind"], inp["terms"], inp["uff"], inp["exclude"])
+    if op == "retype":
+        return real_retype(inp["types"])
+    if op == "typekey":
+        r = real_typekey(inp["t"])
+        return {"key": [x if isinstance(x, str) else int(x) for x in r["key"]]}
+    return None
+
+
 def replay(ctx, rec):
+    if "input" not in rec:
+        # a record of kind "unchecked": no failing input was found; re-run the correspondence on the disagreeing input
+        c = rec.get("correspondence")
+        if not c:
+            return True
+        inp = c["input"]
+        if inp["op"] == "assign":  # the texts come from the real parameter functions as they are now
+            inp = dict(inp, params=param_table(inp["kind"], inp["terms"], inp["uff"]))
+        impl = real_of(inp)
+        model = ctx.lean.run([inp])[0]
+        return core.same(impl, model) is None
     inp = rec["input"]
     op = inp["op"]
     if op in ("angles", "dihedrals"):
